@@ -307,6 +307,56 @@ def directed_scenarios(rng, lay: dict) -> list:
     return out
 
 
+LARGE = 64 * 1024
+
+
+def large_scenarios(rng, lay: dict, per_kind: int) -> list:
+    """Frames whose body exceeds 64 KiB (a valid message with one huge string / blob field, or hostile filler
+    under an unknown id) followed by an ordinary valid frame, delivered in TCP segments far smaller than the
+    body, so that any read of `n` bytes returns short; on every connection kind, obfuscated or not."""
+    out = []
+    for kind in KINDS:
+        msgs = table_msgs(lay, kind)
+        for j in range(per_kind):
+            obf = kind != 'distributed' and j % 2 == 1
+            size = rng.choice([LARGE + 1, LARGE + 4096, 70000, 2 * LARGE + 17, 150000])
+            items = []
+            if j % 3 != 2:
+                cands = [m for m in msgs if not m['compressed'] and any(f['type'] in ('string', 'bytearr') and f['cond'] is None and not f['optional']
+                                                                       for f in m['fields'])]
+                m = rng.choice(cands)
+                vals = L.gen_message(rng, lay, m, 'full')
+                # the first mandatory string / blob field becomes huge
+                for i, f in enumerate(m['fields']):
+                    if f['type'] == 'string' and f['cond'] is None and not f['optional']:
+                        vals[i] = ''.join(rng.choice('abcdefgh \u00e9') for _ in range(64)) * (size // 64 + 1)
+                        break
+                    if f['type'] == 'bytearr' and f['cond'] is None and not f['optional']:
+                        vals[i] = {'hex': bytes(rng.randrange(256) for _ in range(256)).hex() * (size // 256 + 1)}
+                        break
+                items.append(('large-valid', L.make_obj(lay, m, vals).serialize()[4:]))
+            else:
+                idw = msgs[0]['id_width']
+                known = {x['id'] for x in msgs}
+                uid = next(x for x in (0xfe, 0xfd, 0xfc, 0xfb) if x not in known)
+                items.append(('large-unknown-id', uid.to_bytes(idw, 'little') + bytes(rng.randrange(256) for _ in range(97)) * (size // 97 + 1)))
+            items.append(('valid', valid_body(rng, lay, kind)[0]))
+            if j % 2 == 0:
+                items.insert(0, ('valid', valid_body(rng, lay, kind)[0]))
+            plains = [struct.pack('<I', len(b)) + b for _, b in items]
+            wire = [ref_obf_encode(bytes(rng.randrange(256) for _ in range(4)), p) if obf else p for p in plains]
+            stream = b''.join(wire)
+            chunks, pos = [], 0
+            style = j % 3
+            while pos < len(stream):
+                n = rng.choice([1460, 1460, 4096, 8192]) if style == 0 else rng.randrange(500, 40000) if style == 1 else rng.choice([LARGE - 1, 30000, 7])
+                chunks.append(stream[pos:pos + n])
+                pos += n
+            out.append({'kind': kind, 'obf': obf, 'labels': [l for l, _ in items], 'plains': plains, 'chunks': chunks,
+                        'ending': rng.choice(['open', 'eof']), 'partial': b'', 'raise_every': 0, 'large': True})
+    return out
+
+
 def monitor(run: Run, sc: dict, obs: dict, lay: dict):
     """Property text on one real run."""
     expected = [isolated_decode(sc['kind'], p) for p in sc['plains']]
@@ -338,8 +388,19 @@ def monitor(run: Run, sc: dict, obs: dict, lay: dict):
 
 
 def scenario_witness(sc: dict) -> dict:
-    return {'kind': sc['kind'], 'obf': sc['obf'], 'plains': [p.hex() for p in sc['plains']], 'chunks': [c.hex() for c in sc['chunks']],
+    return {'kind': sc['kind'], 'obf': sc['obf'], 'plains': [p.hex() for p in sc['plains']], 'wire': b''.join(sc['chunks']).hex(),
+            'chunk_sizes': [len(c) for c in sc['chunks']],
             'ending': sc['ending'], 'partial': sc['partial'].hex(), 'raise_every': sc['raise_every'], 'labels': sc['labels'], 'scenario': 'stream'}
+
+
+def witness_chunks(wit: dict) -> list:
+    if 'chunks' in wit:
+        return [bytes.fromhex(x) for x in wit['chunks']]
+    wire, out, pos = bytes.fromhex(wit['wire']), [], 0
+    for n in wit['chunk_sizes']:
+        out.append(wire[pos:pos + n])
+        pos += n
+    return out
 
 
 # ----------------------------------------------------------------------------------------
@@ -369,6 +430,8 @@ def coq_cases(scs: list, cur: dict) -> list:
         rows, zd, size = [], [], 0
 
     for idx, (sc, obs) in enumerate(scs):
+        if sc.get('large'):
+            continue     # > 64 KiB literals are too heavy for coqc; these runs are judged by the monitor (property text)
         fam, d = KINDS[sc['kind']]
         fd = f'({L.FAMILY_COQ[fam]}, {"DRequest" if d == "request" else "DResponse"})'
         evs = [f'Chunk {L.coq_bytes(c)}' for c in sc['chunks']]
@@ -612,7 +675,9 @@ def run(run: Run):
     run.rule = ('streams of 1..9 frames per connection kind (server / peer / distributed / awaiting-init; obfuscated or not): ~45% valid '
                 'frames from the C01 generator, the rest random / truncated / bit-flipped / unknown id / shorter than the id / lying '
                 'array-string counts / invalid UTF-8 and cp1252-undefined bytes / corrupt zlib / trailing bytes / empty; random '
-                'segmentation (whole, byte by byte, halves, random cuts); ending open, EOF, partial frame + EOF; callbacks that raise. '
+                'segmentation (whole, byte by byte, halves, random cuts); ending open, EOF, partial frame + EOF; callbacks that raise; '
+                'frames with bodies of 64 KiB+1 .. 150000 bytes (huge valid string/blob field or hostile filler) in 1460..40000-byte segments '
+                '(judged by the monitor only). '
                 'distinct = distinct (kind, chunks, ending); non-trivial = at least one undecodable and one decodable frame. '
                 'Accept path: 10 first-frame shapes x plain/obfuscated port next to an established connection. Handler hypothesis: '
                 'every message class twice through a fully wired client.')
@@ -638,6 +703,7 @@ def run(run: Run):
     n = 28 if run.tier == 'quick' else 200
     scs = []
     todo = [(sc['kind'], sc) for sc in directed_scenarios(run.rng, play)]
+    todo += [(sc['kind'], sc) for sc in large_scenarios(run.rng, play, 3 if run.tier == 'quick' else 12)]
     for kind in KINDS:
         todo += [(kind, None) for _ in range(n)]
     if True:
@@ -650,7 +716,7 @@ def run(run: Run):
                 run.add_finding(Finding(f'reader-harness-exception:{kind}', f'{type(e).__name__}: {e}', scenario_witness(sc)))
                 continue
             labels = set(sc['labels'])
-            run.case({'kind': kind, 'chunks': [c.hex() for c in sc['chunks']], 'ending': sc['ending']},
+            run.case({'kind': kind, 'chunks': [c.hex() for c in sc['chunks']] if not sc.get('large') else [sc['labels'], [len(c) for c in sc['chunks']][:50], sc['plains'][-1].hex()], 'ending': sc['ending']},
                      nontrivial=('valid' in labels and len(labels) > 1), kind=f'{kind}/{"obf" if sc["obf"] else "plain"}/{sc["ending"]}')
             for lb in sc['labels']:
                 run.count('frame:' + lb)
@@ -709,7 +775,7 @@ def replay(rep: dict) -> int:
                 w.close()
     if wit.get('scenario') == 'stream':
         sc = {'kind': wit['kind'], 'obf': wit['obf'], 'plains': [bytes.fromhex(x) for x in wit['plains']],
-              'chunks': [bytes.fromhex(x) for x in wit['chunks']], 'ending': wit['ending'], 'partial': bytes.fromhex(wit['partial']),
+              'chunks': witness_chunks(wit), 'ending': wit['ending'], 'partial': bytes.fromhex(wit['partial']),
               'raise_every': wit['raise_every'], 'labels': wit['labels']}
         obs = run_real(sc['kind'], sc['obf'], sc['chunks'], sc['ending'], sc['partial'], sc['raise_every'], lay)
         exp = [isolated_decode(sc['kind'], p) for p in sc['plains']]
